@@ -116,7 +116,8 @@ def dec_obs(rep, tab, data=None):
 
         def ids(path):
             if ns == 'jol':
-                return [tab.unname('jol', ''.join(chr(c) for c in comp)) for comp in path]
+                return [tab.unname('jol', b''.join(int(c).to_bytes(2, 'big') for c in comp)
+                                   .decode('utf-16_be', 'surrogatepass')) for comp in path]
             return [tab.unname('iso', bytes(comp).decode('latin-1')) for comp in path]
         for d in rep['trees'][ns]:
             if d['path']:
